@@ -44,6 +44,7 @@ Pure(e) ==
             /\ PresetOK("kernel_code64", e.entries[e.cs \div 8 + 1]) /\ e.cs % 8 = 0
             /\ PresetOK("kernel_data", e.entries[e.ds \div 8 + 1]) /\ e.ds % 8 = 0
             /\ PresetOK("user_code64", e.entries[e.ucs \div 8 + 1]) /\ e.ucs % 8 = 3
+      [] e.op = "gdt_default" -> e.entries = << ZeroW >> /\ e.limit = 7   \* Default = empty table
       [] e.op = "dtp_layout" ->                     \* 16-bit limit, then 64-bit base, 10 bytes
             /\ e.size = 10 /\ e.limit_off = 0 /\ e.base_off = 2
             /\ e.bytes = << 205, 171, 102, 85, 68, 51, 34, 17, 0, 0 >>
